@@ -29,7 +29,7 @@ KNOBS = {
     "p_deps": 0.1,
     "p_sync": 0.15,
     "middlewares": (0, 1),
-    "durations": {"zero": 2, "tiny": 3, "short": 4, "medium": 3, "long": 2, "poll": 1, "tie": 4},
+    "durations": {"zero": 2, "tiny": 3, "short": 4, "medium": 3, "long": 2, "poll": 1, "tie": 4, "vlong": 1},
 }
 
 
